@@ -147,7 +147,7 @@ def run_case(spec):
         return out
     if "sampling" in spec:
         sp = spec["sampling"]
-        prob = sampling_one(sp["params"], sp["n"], sp["start_seed"], "replay")
+        prob = sampling_one(sp["params"], sp["n"], sp["start_seed"], "replay", sp.get("reuse_dir", False))
         out.label("sampling_run")
         if prob:
             P(*prob)
@@ -303,7 +303,7 @@ def run_case(spec):
 
 # ----------------------------------------------------------------------------- sensitivity-sample (child process)
 
-def sampling_one(params, n, start, tag):
+def sampling_one(params, n, start, tag, tag_reuse=False):
     """runs `tools sensitivity-sample` in a child process; returns (key, msg) or None"""
     from eudoxia.simulator import parse_args_with_defaults
     from eudoxia.workload import WorkloadGenerator
@@ -317,6 +317,12 @@ def sampling_one(params, n, start, tag):
         with open(pf, "w") as f:
             for k, v in params.items():
                 f.write(f"{k} = {v!r}\n" if not isinstance(v, str) else f'{k} = "{v}"\n')
+        if tag_reuse:
+            # the output directory already holds the samples of an earlier run with another start seed
+            r0 = subprocess.run([sys.executable, "-m", "eudoxia", "tools", "sensitivity-sample", pf, os.path.join(d, "out"), str(n),
+                                 "--start-seed", str(start + 500)], env=dict(os.environ), capture_output=True, text=True, timeout=900)
+            if r0.returncode != 0:
+                return ("C20:sampling-failed", f"exit {r0.returncode}: {r0.stderr[-400:]}")
         r = subprocess.run([sys.executable, "-m", "eudoxia", "tools", "sensitivity-sample", pf, os.path.join(d, "out"), str(n),
                             "--start-seed", str(start)], env=dict(os.environ), capture_output=True, text=True, timeout=900)
         if r.returncode != 0:
@@ -400,8 +406,9 @@ def sampling(tier, seed, shard, nshards):
     params = {"duration": 20, "ticks_per_second": 10, "waiting_seconds_mean": 1.5, "num_pipelines": 2, "num_operators": 3,
               "num_pools": 2, "cpus_per_pool": 16, "ram_gb_per_pool": 128, "scheduler_algo": ["priority", "naive"][shard % 2],
               "random_seed": 5}
-    spec = {"sampling": {"params": params, "n": n, "start_seed": start}}
-    prob = sampling_one(params, n, start, shard)
+    reuse = shard % 3 == 0        # the output directory already holds the samples of an earlier run with another start seed
+    spec = {"sampling": {"params": params, "n": n, "start_seed": start, "reuse_dir": reuse}}
+    prob = sampling_one(params, n, start, shard, reuse)
     st_.evaluations += 1
     st_.labels["sampling_run"] += 1
     st_.nontrivial.add(spec_hash(spec))
